@@ -1,7 +1,7 @@
 (* C13 — non-vacuity examples, the instantiation of the lock-discipline theorem
    on the generated call graph, and the refutation of the pre-repair lock. *)
 From Coq Require Import ZArith List Bool String Lia.
-From Verif Require Import C13.Model C13.Proofs C13.Threads C13.World gen.Gen_C13.
+From Verif Require Import C13.Model C13.Proofs C13.Threads C13.World C13.Reentry gen.Gen_C13.
 Import ListNotations.
 Open Scope Z_scope.
 
@@ -222,8 +222,8 @@ Proof. vm_compute. auto. Qed.
 (* what run_case prints for such a run (the rows the harness compares with
    the real threads): one row per scheduled step, then the quiescent state *)
 Example ex_threads_run_case :
-  List.length (run_case (cfg_cap, map ROp thr_pre, thr_progs, [0; 1; 1; 1; 1], ([], []))) = 7%nat /\
-  nth 1 (run_case (cfg_cap, map ROp thr_pre, thr_progs, [0; 1; 1; 1; 1], ([], []))) [] = [0; 0; 2; 3; 1; 0; 1; 1; 0; 1; 2].
+  List.length (run_case (cfg_cap, map ROp thr_pre, thr_progs, [0; 1; 1; 1; 1], ([], []), ([], []))) = 7%nat /\
+  nth 1 (run_case (cfg_cap, map ROp thr_pre, thr_progs, [0; 1; 1; 1; 1], ([], []), ([], []))) [] = [0; 0; 2; 3; 1; 0; 1; 1; 0; 1; 2].
 Proof. vm_compute. auto. Qed.
 
 (* ---- several lysosomes built from one digesters mapping ----------------- *)
@@ -271,7 +271,7 @@ Proof. vm_compute. auto 12. Qed.
    was made on, then the keys of the mapping and (queue length, total_digested,
    on_toxic calls) of EVERY object *)
 Example ex_world_run_case :
-  nth 4 (run_case (cfg_cap, [], [], [], ([0; 1; 2; 3], world_ops))) [] =
+  nth 4 (run_case (cfg_cap, [], [], [], ([0; 1; 2; 3], world_ops), ([], []))) [] =
     [0;  1; 1; 1; 0; 0;  0; 1; 1; 0;  0; 0; 0; 0; 1;  0;  0; 4;  0; 0; 0; 0; 0;  0;  0;  1; 0;  0; 0; 0;
      4; 0; 1; 2; 3;  2;  0; 1; 1;  0; 0; 0;  0].
 Proof. vm_compute. reflexivity. Qed.
@@ -482,3 +482,44 @@ Proof.
     + discriminate.
     + rewrite F3 in Hi. cbn in Hi. discriminate.
 Qed.
+
+(* ---- callbacks that call back (Part 1f) -------------------------------- *)
+
+(* two sensitive items and a cache item queued; the program calls digest(1);
+   the on_toxic callback of item 0 calls digest() to flush the rest, the
+   digester of item 2 (run by that nested call) has an entry too but does not
+   call back from inside a nested call *)
+Definition re_cfg := mkConfig 8 9 (Some 1) true.
+Definition re_acts : list (Z * op) := [(0, DigestOp None); (2, IngestSensitive (Ok []))].
+Definition re_ops : list xop :=
+  [XR (ROp (Atomic (IngestSensitive (Ok [])))); XR (ROp (Atomic (IngestSensitive Raises)));
+   XR (ROp (Atomic (Ingest ExpiredCache 0 (Ok [1])))); XDigest (Some 1)].
+
+(* non-vacuity of c13_reentrant_*: the nested call ran (three items left the
+   queue during a digest(1)), both sensitive items reached on_toxic once, the
+   nested DigestResult lists the raising callback of item 1, the outer one
+   accounts for item 0 only, no call is left in progress *)
+Example ex_reentrant_history :
+  let cs := snd (xrun re_acts re_cfg re_ops) in
+  queue (c_base cs) = [] /\ rev (toxlog (c_base cs)) = [1; 0] /\ n_digested (c_base cs) = 2 /\
+  c_open cs = [] /\
+  map (fun d => (ids (fst d), d_disposed (snd d), d_errors (snd d))) (c_done cs) = [([0], 1, []); ([1; 2], 1, [1])] /\
+  xflatten re_acts re_cfg cinit re_ops =
+    [ROp (Atomic (IngestSensitive (Ok []))); ROp (Atomic (IngestSensitive Raises));
+     ROp (Atomic (Ingest ExpiredCache 0 (Ok [1])));
+     ROp (PassBegin self_label (Some 1)); ROp (Atomic (DigestOp None)); ROp (PassStep self_label)].
+Proof. vm_compute. repeat split; reflexivity. Qed.
+
+(* the hypothesis of c13_reentrant_digest_returns is met at every point of that
+   history (the calling thread is not inside a digest() of its own) *)
+Example ex_reentrant_hypothesis :
+  find_pass self_label (c_open (snd (xrun re_acts re_cfg (firstn 3 re_ops)))) = None.
+Proof. vm_compute. reflexivity. Qed.
+
+(* what run_case prints for it: the header, three ingests, then one row per
+   step INSIDE the digest(1) call - inside the first digester, the nested
+   digest() returning, the return of the call *)
+Example ex_reentrant_run_case :
+  let rows := run_case (re_cfg, [], [], [], ([], []), (re_acts, re_ops)) in
+  List.length rows = 7%nat /\ map (fun r => hd 0 r) rows = [8; 0; 0; 0; 3; 1; 1].
+Proof. vm_compute. auto. Qed.
